@@ -1,18 +1,24 @@
 #!/bin/sh
 # tools/try_seed.sh CXX path/to/patch.diff [tier] : run the check of CXX against a scratch worktree of /repo with the patch applied.
-# The worktree lives under /tmp and is removed afterwards. Exit status: that of the check (1 = detected).
-pid=$1; patch=$2; tier=${3:-quick}
+# The check runs from a scratch COPY of /verif (build output included), so that nothing in /verif — evidence, replays, the Lean facts the
+# translators regenerate from the source — is touched by a run against a modified tree. Both scratch directories are removed afterwards.
+# Exit status: that of the check (1 = detected).
+pid=$1; patch=$(readlink -f "$2"); tier=${3:-quick}
+V=$(cd "$(dirname "$0")/.." && pwd)
 wt=/tmp/tryseed-$pid-$$
+vc=/tmp/tryseed-verif-$pid-$$
 git -C /repo worktree add -q --detach "$wt" HEAD || exit 2
 git -C "$wt" apply "$patch" || { git -C /repo worktree remove --force "$wt"; echo "patch does not apply"; exit 2; }
-cd "$(dirname "$0")/.." || exit 2
+mkdir -p "$vc" && rsync -a --exclude .git --exclude replays --exclude 'evidence/.scratch' --exclude 'lean/.audit' "$V"/ "$vc"/ || exit 2
+cd "$vc" || exit 2
 st=0
 for seed in ${SEEDS:-0 1}; do
   VERIF_REPO="$wt" VERIF_SEED=$seed ./check "$pid" --tier "$tier" > /tmp/tryseed-$pid-$$.log 2>&1; s=$?
-  grep -E "^VIOLATION|^KNOWN-FINDING|^\[$pid\]|INFRA" /tmp/tryseed-$pid-$$.log | cut -c1-260 | head -6
+  grep -E "^VIOLATION|^KNOWN-FINDING|^\[$pid\]|INFRA" /tmp/tryseed-$pid-$$.log | sed "s#$vc#$V#g" | cut -c1-260 | head -6
   [ $s -ne 0 ] && st=$s
 done
-git checkout -q lean/PfModel/Generated 2>/dev/null
+if [ -n "$KEEP_REPLAYS" ] && [ -d "$vc/replays" ]; then mkdir -p "$V/replays/seeded" && cp "$vc"/replays/*.json "$V/replays/seeded/" 2>/dev/null; fi
+cd /; rm -rf "$vc"
 git -C /repo worktree remove --force "$wt"
 rm -f /tmp/tryseed-$pid-$$.log
 echo "try_seed $pid $(basename "$patch"): exit=$st"
